@@ -48,7 +48,15 @@ for meta_path in sorted(glob.glob(os.path.join(src, "*", "*", "meta.json")) + gl
     finally:
         subprocess.run(["git", "-C", "/repo", "worktree", "remove", "--force", scratch + "/wt"], capture_output=True)
         shutil.rmtree(scratch, ignore_errors=True)
-        shutil.rmtree(os.path.join(VERIF, "replay", prop), ignore_errors=True)
 for r in rows:
-    print(json.dumps(r))
-json.dump(rows, open(os.path.join(VERIF, "seeded_results.json" if src.endswith("seeded") else "/tmp/seeded_results_tmp.json"), "w"), indent=1)
+    print(json.dumps(r), flush=True)
+if src.endswith("seeded"):
+    # merge into the committed table (one row per seeded change, latest evaluation wins)
+    path = os.path.join(VERIF, "seeded_results.json")
+    old = json.load(open(path)) if os.path.exists(path) else []
+    by = {r["tag"]: r for r in old}
+    for r in rows:
+        by[r["tag"]] = r
+    json.dump([by[k] for k in sorted(by)], open(path, "w"), indent=1)
+else:
+    json.dump(rows, open("/tmp/seeded_results_tmp.json", "w"), indent=1)
